@@ -40,13 +40,13 @@ type promRef struct {
 	fails   map[string]float64
 }
 
-func observer(pm *prom.Metrics, mine []*vegeta.Result) {
+func observer(pm *prom.Metrics, mine []*vegeta.Result, me int) {
 	for i := 0; i <= len(mine); i++ {
 		idx := int64(i)
 		if i == len(mine) {
 			idx = -1
 		}
-		v, _ := simrt.Park(kObsIdle, 0, idx, 0, 0, nil)
+		v, _ := simrt.Park(kObsIdle, 0, idx, int64(me), 0, nil)
 		if v == relQuit || i == len(mine) {
 			return
 		}
@@ -179,7 +179,7 @@ func runProm(tt *testing.T, tape *simrt.Tape, keep bool) (out simrt.Outcome) {
 			per[o] = append(per[o], r)
 		}
 		for o := 0; o < nobs; o++ {
-			go observer(pm, per[o])
+			go observer(pm, per[o], o)
 		}
 		go scraper(reg)
 		scrapes, lastRel := 0, -1
